@@ -24,16 +24,55 @@ RULE = ("programs are drawn by the typed, scope-aware generator G-PROG (Hypothes
         "Non-trivial: >= 8 statements, >= 1 compound statement and >= 3 distinct feature tags "
         "from the core list; distinct by source text. Specialised domains: the quick case sets of "
         "the C05/C06/C07/C13 engines (whole programs, same oracle) are run under a derived seed; "
-        "their classes are reported with the engine's prefix and their own non-triviality rule.")
+        "their classes are reported with the engine's prefix and their own non-triviality rule; the "
+        "function templates of C11 and a seeded stride of the class-skeleton product of C12 run as plain "
+        "programs (2 configurations by rotation).")
 
 # engines whose cases are whole programs compared by oracle.check_program / kit.compare_obs, i.e.
 # by exactly what C01 states (a probe is a print the user could have written)
 SPECIALISED = ("C05", "C06", "C07", "C13")
 
 
+def _plain_shard(item):
+    """whole programs of the C11 / C12 engines under the plain C01 oracle (their own oracles - call
+    batteries, class inspection - stay with those properties)"""
+    part = new_part()
+    for label, src, k in item:
+        o = run_code(src, "exec")
+        if not o["ok"]:
+            part["discarded"]["%s:original-raises:%s" % (label, o["err"])] += 1
+            continue
+        part["evaluations"] += 1
+        part["classes"][label] += 1
+        part["nontrivial"].add(key_hash(src))
+        cfgs = [env.ALL_CFGS[k % 8], env.ALL_CFGS[(k + 5) % 8]]
+        status, failures, _ = check_program(src, cfgs, orig=o)
+        if status == "fail" and len(part["violations"]) < 3:
+            cfg, diffs, text = failures[0]
+            part["violations"].append({"payload": program_payload(src, cfg), "diffs": diffs,
+                                       "what": "[%s] program behaves differently after conversion (%s)" % (label, env.cfg_name(cfg))})
+    return part
+
+
+def plain_programs(report):
+    from . import c11, c12
+    quick = report.tier == "quick"
+    progs = [("c11:template", src + "\n", i) for i, src in enumerate(c11.TEMPLATES)]
+    cases = list(c12.all_cases())
+    stride = 73 if quick else 11
+    off = report.seed % stride
+    for i, case in enumerate(cases[off::stride]):
+        bk, mk, kk, dk, ms, where = case
+        progs.append(("c12:class-case", c12.PRE + c12.place(c12.class_source(bk, mk, kk, dk, ms), where), i))
+    n = env.NPROC * 2
+    for part in env.pmap(_plain_shard, [progs[i::n] for i in range(n)]):
+        report.absorb(part)
+
+
 def specialised_domains(report):
     import importlib
     from ..runner import Report
+    plain_programs(report)
     for name in SPECIALISED:
         eng = importlib.import_module("olverif.props.%s" % name.lower())
         sub = Report(name, "quick", env.sub_seed(report.seed, "C01-specialised", name) % (1 << 31))
